@@ -71,6 +71,21 @@ int main()
       Sha256::hmac(k, klen, d, len, digest);
       putDigest(digest);
     }
+    // an empty input handed over as (nullptr, 0), as a caller holding an empty Buffer/array would
+    else if(hxIs(l, "updatenull", 0)) { sha->update((const byte*)0, 0); printf("ok"); hxEndLine(); }
+    else if(hxIs(l, "hashnull", 0)) { Sha256::hash((const byte*)0, 0, digest); putDigest(digest); }
+    else if(hxIs(l, "hmacnullkey", 1))
+    {
+      d = hxBytes(l.tok[1], len);
+      Sha256::hmac((const byte*)0, 0, d, len, digest);
+      putDigest(digest);
+    }
+    else if(hxIs(l, "hmacnullmsg", 1))
+    {
+      k = hxBytes(l.tok[1], klen);
+      Sha256::hmac(k, klen, (const byte*)0, 0, digest);
+      putDigest(digest);
+    }
     else { printf("bad-op"); hxEndLine(); }
     free(d);
     free(k);
